@@ -2,7 +2,7 @@
 import ast
 import copy as _copy
 
-from ..core import (U, walk_local, calls_in, call_name, const, NOCONST, params, stores_in, single_def, expand,
+from ..core import (TU, U, walk_local, calls_in, call_name, const, NOCONST, params, stores_in, single_def, expand,
                     walk_stmts, arg_for, kwarg, path_conditions, enclosing_stmt_chain, dotted, param_default)
 from ..lin import lin, Lin
 from . import c07, c08
@@ -363,17 +363,17 @@ def r2_ln_offset(ctx, rule):
     ok = True
     # writer: ln_lookup[i] on line i+1
     wf = ctx.fn(OFO)
-    wtxt = U(wf)
+    wtxt = TU(wf)
     w_ok = 'for length, count in enumerate(omen_trainer.ln_lookup):' in wtxt and "file.write(str(count[0]) + '\\n')" in wtxt
     # trainer index len-1 (checked in R1 through the map), scorer pre-seeds one element and indexes len
     sf = ctx.fn(SCI)
     pre = [s for s in walk_stmts(sf.body) if isinstance(s, ast.Assign) and U(s.targets[0]) == 'self.ln' and isinstance(s.value, ast.List)]
-    s_ok = len(pre) == 1 and len(pre[0].value.elts) == 1 and 'self.max_len = len(self.ln) - 1' in U(sf)
+    s_ok = len(pre) == 1 and len(pre[0].value.elts) == 1 and 'self.max_len = len(self.ln) - 1' in TU(sf)
     lo = ctx.fn('lib_scorer/omen_scorer.py::OmenScorer._load_omen')
-    s_ok = s_ok and 'self.ln.append(level)' in U(lo)
+    s_ok = s_ok and 'self.ln.append(level)' in TU(lo)
     # guesser: cur_length starts at 1 and is incremented once per line on every path
     gf = ctx.fn(LL)
-    gtxt = U(gf)
+    gtxt = TU(gf)
     loops = [n for n in walk_local(gf) if isinstance(n, ast.For)]
     g_ok = 'cur_length = 1' in gtxt
     inc_ok = False
@@ -515,7 +515,7 @@ def r10_omen_loaders_complete(ctx, rule):
                     continue
                 n_stores += 1
                 for t, pol in path_conditions(mod, st, stop=lp):
-                    txt = U(t)
+                    txt = TU(t)
                     ok = False
                     if isinstance(t, ast.Compare) and len(t.ops) == 1:
                         if isinstance(t.ops[0], ast.Eq) and U(t.left) == 'name' and isinstance(const(t.comparators[0]), str):
@@ -586,13 +586,24 @@ def _memo_key(ctx, rule):
     from . import c10
     return c10.r2_memo_key(ctx, rule)
 
+def _shared_rule(mod, name, **kw):
+    def run(ctx, rule):
+        import importlib
+        return getattr(importlib.import_module('sa.props.' + mod), name)(ctx, rule, **kw)
+    return run
+
+
 def rules(tier):
     return [('C11.R1', r1_formula_skeleton), ('C11.R2', r2_ln_offset), ('C11.R3', r3_cp_count), ('C11.R5', r5_length_domain),
             ('C11.R6', lambda c, r: c07.r5_strip_discipline(c, r, only=_OMEN_READERS, floor=4)),
             ('C11.R7', lambda c, r: c07.r3_record_layout(c, r, scope='omen')),
             ('C11.R8', lambda c, r: c07.r2_encoding_agreement(c, r, file_filter=lambda fid: fid[0] == 'Omen' and fid[-1] in
                                                                ('IP.level', 'CP.level', 'LN.level', 'alphabet.txt'), floor=6)),
-            ('C11.R9', _passes), ('C11.R10', r10_omen_loaders_complete), ('C11.R11', _cursor), ('C11.R12', _zero_budget), ('C11.R13', _no_shared_defaults), ('C11.R14', _window_slices), ('C11.R15', _popped_level), ('C11.R16', _memo_key), ('C11.R17', _model_unfiltered)]
+            ('C11.R9', _passes), ('C11.R10', r10_omen_loaders_complete), ('C11.R11', _cursor), ('C11.R12', _zero_budget), ('C11.R13', _no_shared_defaults), ('C11.R14', _window_slices), ('C11.R15', _popped_level), ('C11.R16', _memo_key), ('C11.R17', _model_unfiltered),
+            # C11-ca: next guess fetched before the quit check - one string per interrupted level is lost
+            ('C11.R18', _shared_rule('c15', 'r2_no_generated_unemitted')),
+            # C10-ca / C18-ca: OMEN config key read with a fallback
+            ('C11.R19', _shared_rule('c10', 'r20_omen_config_keys'))]
 
 
 META = {
